@@ -214,6 +214,7 @@ func checkC07(c C07Case, o *Obs) error {
 		}
 		for mi, m := range modes {
 			runs++
+			o.Beat()
 			ferr := fault.ErrKinds[(k+mi)%len(fault.ErrKinds)]
 			fr := &fault.FailAfter{Data: text, K: k, Forever: m.forever, WithData: m.withData, Chunk: m.chunk, Err: ferr, Resume: m.resume}
 			// every third run the failing stream sits behind the caller's own bufio.Reader (which also
@@ -323,6 +324,7 @@ func checkWriteFaults(c C07Case, o *Obs) error {
 	for _, k := range limits {
 		for mode, short := range []bool{false, true, false} {
 			runs++
+			o.Beat()
 			lw := &fault.LimitedWriter{Limit: k, Short: short, Full: mode == 2}
 			var werr error
 			if p := catch(func() { werr = write(lw) }); p != nil {
@@ -345,6 +347,7 @@ func checkWriteFaults(c C07Case, o *Obs) error {
 			bw := bufio.NewWriterSize(lw, bufSize)
 			for rep := 0; rep < 4; rep++ {
 				runs++
+				o.Beat()
 				var werr error
 				if p := catch(func() { werr = write(bw) }); p != nil {
 					return fmt.Errorf("%s: Write to a bufio.Writer panicked when the underlying writer fails after %d bytes: %v", c.Format, k, p)
